@@ -1040,13 +1040,7 @@ def _m_lstrip(ex, st, s, args, kwargs):
         yield st, s.lstrip(*args)
         return
     if len(args) == 1 and isinstance(args[0], str) and len(args[0]) == 1:
-        c = args[0]
-        a = z3.String(fresh_name("lpre"))
-        r = z3.String(fresh_name("lstrip"))
-        bm.axiom(s.t == z3.Concat(a, r))
-        bm.axiom(z3.InRe(a, z3.Star(z3.Re(c))))
-        bm.axiom(z3.Not(z3.PrefixOf(z3.StringVal(c), r)))
-        yield st, SV("str", r)
+        yield st, SV("str", bm.lstrip_term(s.t, args[0]))
         return
     raise U("lstrip")
 
@@ -1409,6 +1403,12 @@ def call_opaque_method(ex, st, f: BuiltinRef, args, kwargs):
 
 def call_opaque(ex, st, f: Opaque, args, kwargs):
     spec = ex.db.opaque_method(f.kind, "__call__")
+    if spec is None and f.kind == "Any":
+        # calling an arbitrary value: nothing is known about the result (noted in the evidence)
+        st.notes.append("call of an arbitrary value: result unconstrained")
+        st.trace.append(("call", "Any.__call__", f, tuple(args), ()))
+        yield st, Opaque("Any")
+        return
     if spec is None:
         raise U(f"call of opaque {f.kind} has no assumed contract")
     yield from spec(ex, st, f, args, kwargs)
